@@ -1137,6 +1137,7 @@ class Lexer:
                         )
                         self.wc.clear()
                         self.tag_name = ""
+                        self.start = self.pos
                         break
                 elif tag_name == "raw":
                     raw_depth += 1
